@@ -107,6 +107,7 @@ class Sc:
     def __rtruediv__(self, o): return self._b(o, lambda a, b: b / a)
     def __neg__(self): return Sc(-self.z)
     def __pos__(self): return self
+    def __abs__(self): return Sc(z3.If(self.z >= 0, self.z, -self.z))
 
     def __pow__(self, n):
         return Sc(zpow(self.z, n))
@@ -122,7 +123,6 @@ class Sc:
     def __le__(self, o): return SB(self.z <= term(o))
     def __gt__(self, o): return SB(self.z > term(o))
     def __ge__(self, o): return SB(self.z >= term(o))
-    __hash__ = None
 
     def __bool__(self):
         raise OutsideSubset("truth value of a symbolic scalar (data-dependent branch)")
@@ -138,6 +138,12 @@ class Sc:
     def __repr__(self):
         return "Sc(%s)" % self.z
 
+    def __format__(self, spec):
+        return "<%s>" % self.z
+
+    def __hash__(self):
+        return self.z.hash()
+
 
 class Paths:
     """forking layer for the few value-dependent branches: a symbolic truth value asks the active Paths object; if
@@ -151,7 +157,7 @@ class Paths:
 
     def feasible(self, c):
         s = z3.Solver()
-        s.set("timeout", 2000)
+        s.set("timeout", 400)      # unknown counts as feasible (sound: the path is then checked like any other)
         s.add(*self.facts)
         s.add(*self.pc)
         s.add(c)
